@@ -151,12 +151,24 @@ class RelayAutomaton(Automaton):
             state = upd(state, new=True)
         if implies(fact, mk_not(self.t_orphan)):
             state = upd(state, parent=True)
+        # a test of the one linkage the in-state validator checks too (R05.6: height = parent's + 1): where it fails the block is invalid,
+        # and leaving without adopting it is a refusal (the relay handler makes this test itself, because bulk download skips in-state
+        # validation for most blocks - R20.14)
+        if fact[0] in ("cmp", "cmpz") and self._unlinked(fact):
+            state = upd(state, refused=True)
         if implies(fact, self.irt0):
             if state[BULK]:
                 return None                             # infeasible: this path took the bulk-download branch
         elif implies(fact, mk_not(self.irt0)):
             state = upd(state, bulk=True)
         return state
+
+    def _unlinked(self, fact: Term) -> bool:
+        from .c20 import _is_height_link
+        h = self.sp.term("message.data.header.summary.height")
+        ph = self.sp.term("self.local_peer.chain_manager.coinstate.block_by_hash[message.data.header.summary.previous_block_hash].header.summary.height")
+        neg = mk_not(fact)
+        return _is_height_link(neg, h, ph)
 
     def on_event(self, state: State, ev: Event) -> Iterable[State]:
         k = self.classify(ev)
